@@ -203,7 +203,37 @@ def c20_case(draw):
     case["meta"] = [draw(st.integers(0, len(case["files"]) - 1)), draw(st.sampled_from(SETTINGS))]
     single = len(case["files"]) == 1
     case["direct"] = draw(st.sampled_from(["default", "xhtml_escape", None, "myesc", "url_escape", "loader"])) if single else "loader"
+    # third construction: a loader whose _create_template passes an explicit per-file autoescape= argument
+    # ("unset" = leave it to the loader's default)
+    if case["direct"] == "loader" and draw(st.booleans()):
+        case["perfile"] = [draw(st.sampled_from(PERFILE)) for _ in case["files"]]
+    else:
+        case["perfile"] = None
     return case
+
+
+PERFILE = ["unset", None, "xhtml_escape", None, "xhtml_escape", "myesc", "url_escape", "bresc"]
+
+
+class PerFileLoader(template.DictLoader):
+    """A loader that chooses the escaping policy per file, the way an application would
+    (e.g. 'xhtml_escape for *.html, None for *.txt'): Template(..., loader=self, autoescape=policy)."""
+
+    def __init__(self, files, policy, **kwargs):
+        super().__init__(files, **kwargs)
+        self.policy = policy
+
+    def _create_template(self, name):
+        if name in self.policy:
+            return template.Template(self.dict[name], name=name, loader=self, autoescape=self.policy[name])
+        return template.Template(self.dict[name], name=name, loader=self)
+
+
+def perfile_policy(case):
+    pf = case.get("perfile")
+    if not pf:
+        return {}
+    return {fd["name"]: pf[i] for i, fd in enumerate(case["files"]) if pf[i] != "unset"}
 
 
 # ----------------------------------------------------------------------------------------- running
@@ -239,8 +269,9 @@ def file_settings(case, meta=None):
         la = case["loader"]["autoescape"]
         default = "xhtml_escape" if la == "default" else la
     out = {}
+    policy = perfile_policy(case)
     for i, fd in enumerate(case["files"]):
-        setting = default
+        setting = policy.get(fd["name"], default)  # the template's own argument wins over the loader's default
         for nd in G.walk_nodes(fd["body"]):
             if nd[0] == "autoescape":
                 setting = None if nd[1] == "None" else nd[1]
@@ -271,14 +302,18 @@ def run_both(case, files, kwargs):
         lkw = {}
         if case["loader"]["autoescape"] != "default":
             lkw["autoescape"] = case["loader"]["autoescape"]
+        policy = perfile_policy(case)
         try:
-            t = template.DictLoader(dict(files), namespace=ns, **lkw).load(entry)
+            if case.get("perfile"):
+                t = PerFileLoader(dict(files), policy, namespace=ns, **lkw).load(entry)
+            else:
+                t = template.DictLoader(dict(files), namespace=ns, **lkw).load(entry)
             real = ("ok", t.generate(**kwargs))
         except template.ParseError as e:
             real = ("parse", str(e))
         except Exception as e:
             real = ("exc", type(e).__name__, str(e)[:200])
-        rl = R.RefLoader(files, namespace=ns, **lkw)
+        rl = R.RefLoader(files, namespace=ns, file_autoescape=policy, **lkw)
         refkw = kwargs
     try:
         slices = rl.render_slices(entry, **refkw)
@@ -328,7 +363,12 @@ def run_case(ctx, case):
     settings = file_settings(case)
     labels = set()
     real, slices, ref = run_both(case, files, kwargs)
+    policy = perfile_policy(case)
+    loader_default = "xhtml_escape" if case["loader"]["autoescape"] == "default" else case["loader"]["autoescape"]
+    if case.get("perfile"):
+        labels.add("perfile_loader")
     detail = {"files": files, "values": case["values"], "loader": case["loader"], "direct": case["direct"],
+              "perfile": case.get("perfile"),
               "real": real, "ref": ref[:3]}
     if any(v[0] == "bytes" for v in case["values"]):
         labels.add("has_bytes_value")
@@ -391,7 +431,12 @@ def run_case(ctx, case):
                     check_slice(c, c.data)
             return
         # expression / raw tag
+        through = [v[0] for v in sl.via]
         gov = settings[sl.file]
+        if sl.kind == "expr" and sl.file in policy and policy[sl.file] == gov and gov != loader_default:
+            labels.add("expr_under_template_arg_not_loader_default")
+            if through:
+                labels.add("template_arg_through_include_or_block")
         if sl.src in by_var:
             want_plain = value_text(by_var[sl.src]).encode("utf-8")
             if sl.plain != want_plain:
@@ -412,7 +457,6 @@ def run_case(ctx, case):
                 if gov in ("myesc", "bresc") and sl.kind == "expr":
                     labels.add("number_under_custom_escaper")
         has_special = any(bytes([c]) in SPECIALS for c in sl.plain)
-        through = [v[0] for v in sl.via]
         if has_special and through:
             adversarial_through[0] = True
         if sl.kind == "raw":
